@@ -112,10 +112,21 @@ def store_level_phase(v):
                 "an observed listing of a retention-free history violates levels_contiguous (Store/Spec.v): a level is "
                 "not an exact chain from TXID 1, a file does not end at a boundary of the level below, or an L0 file is "
                 "missing; input (pos had_snapshot retention_free listing)", True)
-    S.store_phase(v, PID, "c06", 60, 2500, ("store_run", "store_inv_ok"), ("C06/",), classify)
+    S.store_phase(v, PID, "c06", 40, 2500, ("store_run", "store_inv_ok"), ("C06/",), classify)
 
 
 PHASES = [file_level_phase, store_level_phase]
+
+
+def shrink_snapshot_phase(v):
+    """snapshots and compactions taken while a shrink of the database exists only in the WAL (and
+    after it was checkpointed): every TXID must restore identically through snapshots / compacted
+    files and through the level-0 chain (db harness, mode shrinksnap)"""
+    from . import db_common as D
+    D.harness_only_phase(v, PID, "shrinksnap", 6 if v.tier == "quick" else 120, 0, "shrink_snapshot_histories")
+
+
+PHASES.append(shrink_snapshot_phase)
 
 
 def run(v):
